@@ -579,8 +579,15 @@ def resolve_c_checks(results: list[dict], chunk: int = 24):
             for r in grp:
                 ok_whole[id(r)] = True
     good = {"ok": True, "first_error": "", "n_errors": 0}
+    n_bad = 0
     for r in pending:
         c = r["_c"]
+        if n_bad >= 10 and not ok_whole.get(id(r)):
+            # the batch already has ten rejected outputs: enough failing inputs, do not spend minutes
+            # attributing errors one by one (the entries are left without a tool-chain verdict)
+            for key in c["joins"]:
+                r["gen"][key]["toolchain_skipped"] = "many failures in this batch"
+            continue
         if ok_whole.get(id(r)):
             per_kind = {k: good for k in c["singles"]}
         else:
@@ -595,6 +602,8 @@ def resolve_c_checks(results: list[dict], chunk: int = 24):
                 if all(v["ok"] for v in per_kind.values()):
                     # only the combination fails (cannot happen for independent definitions)
                     per_kind = {k: whole for k in c["singles"]}
+        if not all(v["ok"] for v in per_kind.values()):
+            n_bad += 1
         for key, kinds in c["joins"].items():
             bad = [per_kind[k] for k in kinds if not per_kind[k]["ok"]]
             r["gen"][key]["toolchain"] = bad[0] if bad else good
